@@ -87,6 +87,10 @@ namespace occa {
         virtual std::string getOuterIterator(const int loopIndex) = 0;
         virtual std::string getInnerIterator(const int loopIndex) = 0;
         virtual std::string launchBoundsAttribute(const int innerDims[3]) = 0;
+
+        // False when the inner dims handed to launchBoundsAttribute come from
+        // @max_inner_dims (an upper bound), true when they are the loops' trip counts
+        bool launchBoundsAreExact;
       };
     }
   }
